@@ -17,7 +17,7 @@ RULE = ("files written directly with mido: (R) every delta-time word up to the l
         "event checked against its exact rational position; (L) long runs of one small delta; (G) 1-4 tracks x EVERY "
         "assignment of tracks to <=2 ordered non-empty groups or to no group x every meta-track subset x every meta "
         "target; (K) all 30 mido key names; non-trivial = resolution != 24 or >= 2 tracks")
-SCALE = ('runs of 1100 / 2300 / 5000 events of one delta (7 and 27 file ticks) and a 2400-event mixed pattern at every resolution')
+SCALE = ('runs of 1100 / 2300 / 5000 events of one delta (7 and 27 file ticks) and a 2400-event mixed pattern at every resolution; track indices as numpy integers and tuples')
 ASSUMPTIONS = ["mido's byte-level reading/writing is trusted", "both neighbours are accepted on exact .5 ties",
                "drift is checked for runs of up to 5000 events per track"]
 REQUIRED_FLAGS = ["tpb_not_24", "non_integer_position", "exact_tie", "note_off_as_note_on_velocity_0", "group_of_two_tracks",
